@@ -84,7 +84,8 @@ func TestVerifC15Log(tt *testing.T) {
 		"oc-none", "oc-req-blocked", "oc-resp-blocked", "oc-req-allowed", "oc-resp-allowed", "oc-rewritten", "oc-cname-rewritten",
 		"debug-profile", "filtering-disabled", "logged-no-location", "logged-escaped-rule", "dropped-profile-logging-on",
 		"logged-both-req-blocked+resp-blocked", "logged-both-req-blocked+resp-allowed", "logged-both-req-allowed+resp-blocked",
-		"logged-both-req-allowed+resp-allowed", "logged-both-rewritten+resp-blocked", "logged-both-other-rule")
+		"logged-both-req-allowed+resp-allowed", "logged-both-rewritten+resp-blocked", "logged-both-other-rule",
+		"near-miss-logging-differs", "near-miss-ip-logging-differs", "log-flip-by-device", "log-flip-by-anon", "concurrent-logged", "concurrent-profile-not-logged", "logged-asn-unknown")
 	st.Finish(tt)
 
 	opts := vfsOpts{AccessHeavy: false, Drops: true}
@@ -111,15 +112,41 @@ func TestVerifC15Log(tt *testing.T) {
 
 		var hist []string
 		linesSeen := 0
-		entriesTotal := 0
 
-		steps := rapid.IntRange(3, 10).Draw(t, "steps")
-		for i := 0; i < steps; i++ {
-			r := vfsDrawRequest(t, s, opts)
+		// readNew returns the complete lines appended to the real log file
+		// since the last call.
+		readNew := func() (newLines [][]byte) {
+			data, err := os.ReadFile(logPath)
+			if err != nil && !os.IsNotExist(err) {
+				t.Fatalf("harness: reading %s: %v", logPath, err)
+			}
+
+			if len(data) > 0 && data[len(data)-1] != '\n' {
+				t.Fatalf("query log file does not end with a line feed: %q\nhistory:\n  %s", data, strings.Join(hist, "\n  "))
+			}
+
+			var lines [][]byte
+			if len(data) > 0 {
+				lines = bytes.Split(data[:len(data)-1], []byte("\n"))
+			}
+
+			if len(lines) < linesSeen {
+				t.Fatalf("query log file shrank to %d lines from %d", len(lines), linesSeen)
+			}
+
+			newLines = lines[linesSeen:]
+			linesSeen = len(lines)
+
+			return newLines
+		}
+
+		// judge decides one served request; newLines are the lines of the real
+		// log that belong to it.  It returns 0 if the request was not logged, 1
+		// if it was logged without and 2 if with the client address.
+		judge := func(r *vfsRequest, tr *vfsTrace, newLines [][]byte, prevLogged *int, mode string) (logged int) {
 			v := vfsAccessVerdict(conf, r)
 			rlDropped, rlBy := r.RateLimited(conf)
-			tr := s.serve(t, r)
-			hist = append(hist, fmt.Sprintf("%s -> %s", r, tr))
+			hist = append(hist, fmt.Sprintf("%s%s -> %s", mode, r, tr))
 
 			fail := func(format string, args ...any) {
 				t.Fatalf("%s\n%s\naccess verdict %+v rateLimited=%t(%s)\nhistory:\n  %s", fmt.Sprintf(format, args...), conf, v, rlDropped, rlBy, strings.Join(hist, "\n  "))
@@ -151,27 +178,9 @@ func TestVerifC15Log(tt *testing.T) {
 			}
 
 			// The lines the real file log wrote for this request.
-			data, err := os.ReadFile(logPath)
-			if err != nil && !os.IsNotExist(err) {
-				fail("harness: reading %s: %v", logPath, err)
+			if len(newLines) != len(tr.QLog) {
+				fail("the query log file has %d lines for this request, the query log was handed %d entries", len(newLines), len(tr.QLog))
 			}
-
-			if len(data) > 0 && data[len(data)-1] != '\n' {
-				fail("query log file does not end with a line feed: %q", data)
-			}
-
-			var lines [][]byte
-			if len(data) > 0 {
-				lines = bytes.Split(data[:len(data)-1], []byte("\n"))
-			}
-
-			entriesTotal += len(tr.QLog)
-			if len(lines) != entriesTotal {
-				fail("query log file has %d lines after %d logged requests", len(lines), entriesTotal)
-			}
-
-			newLines := lines[linesSeen:]
-			linesSeen = len(lines)
 
 			classes := []string{"srv-" + r.Server, "oc-" + vfsOutcomeNames[r.Script.Outcome]}
 			prof := r.Prof >= 0
@@ -303,7 +312,7 @@ func TestVerifC15Log(tt *testing.T) {
 				line := newLines[k]
 				dec := json.NewDecoder(bytes.NewReader(line))
 				dec.DisallowUnknownFields()
-				if err = dec.Decode(&l); err != nil || dec.More() {
+				if err := dec.Decode(&l); err != nil || dec.More() {
 					fail("line %q is not one JSON object of the documented shape: %v", line, err)
 				}
 
@@ -346,8 +355,17 @@ func TestVerifC15Log(tt *testing.T) {
 					}
 
 					classes = append(classes, "logged-no-location")
-				} else if l.C == nil || l.A == nil || *l.C != string(loc.Country) || *l.A != uint32(loc.ASN) {
-					fail("line %q: client country/ASN are not %+v", line, loc)
+				} else if l.C == nil || *l.C != string(loc.Country) {
+					fail("line %q: client country is not %+v", line, loc)
+				} else if loc.ASN == 0 {
+					// "If none could be detected, this property is absent."
+					if l.A != nil {
+						fail("line %q has an ASN although the client's is not known", line)
+					}
+
+					classes = append(classes, "logged-asn-unknown")
+				} else if l.A == nil || *l.A != uint32(loc.ASN) {
+					fail("line %q: client ASN is not %+v", line, loc)
 				}
 
 				// Both stages produced a result: the line above was required to
@@ -365,7 +383,94 @@ func TestVerifC15Log(tt *testing.T) {
 				}
 			}
 
+			if mode != "" {
+				classes = append(classes, "concurrent")
+				if len(tr.QLog) > 0 {
+					classes = append(classes, "concurrent-logged")
+				} else if prof && drop == "" {
+					classes = append(classes, "concurrent-profile-not-logged")
+				}
+			}
+
+			if len(tr.QLog) > 0 {
+				logged = 1
+				if tr.QLog[0].RemoteIP.IsValid() {
+					logged = 2
+				}
+			}
+
+			if r.NearMiss != "" && prevLogged != nil {
+				classes = append(classes, "near-miss-"+r.NearMiss)
+				if (*prevLogged == 0) != (logged == 0) {
+					classes = append(classes, "near-miss-logging-differs", "log-flip-by-"+r.NearMiss)
+				} else if *prevLogged != logged {
+					// Logged both times, once with and once without the address
+					// (pooled entries and buffers are reused across profiles
+					// of different kinds).
+					classes = append(classes, "near-miss-ip-logging-differs")
+				}
+			}
+
 			st.Case(nt, classes...)
+
+			return logged
+		}
+
+		// A sequential history; a third of the requests are near misses of
+		// their predecessor (exactly one component changed: the device, the
+		// identification, the client address, the name, the type, ...).
+		steps := rapid.IntRange(3, 10).Draw(t, "steps")
+		var prevReq *vfsRequest
+		var prevLogged *int
+		for i := 0; i < steps; i++ {
+			r := vfsDrawRequest(t, s, opts, prevReq)
+			tr := s.serve(t, r)
+			logged := judge(r, tr, readNew(), prevLogged, "")
+			prevReq, prevLogged = r, &logged
+		}
+
+		// Then a batch served concurrently on the same stack and the same file
+		// log: every request is judged by its own events and by the lines
+		// that carry its own request ID.
+		if rapid.Bool().Draw(t, "concurrentBatch") {
+			n := rapid.IntRange(2, 6).Draw(t, "batch")
+			var batch []*vfsRequest
+			for i := 0; i < n; i++ {
+				var p *vfsRequest
+				if len(batch) > 0 {
+					p = batch[len(batch)-1]
+				}
+
+				batch = append(batch, vfsDrawRequest(t, s, opts, p))
+			}
+
+			trs := s.serveConcurrently(t, batch)
+			byU := map[string][][]byte{}
+			for _, line := range readNew() {
+				var u struct {
+					U string `json:"u"`
+				}
+
+				if err := json.Unmarshal(line, &u); err != nil {
+					t.Fatalf("line %q written during a concurrent batch is not a JSON object: %v\nhistory:\n  %s", line, err, strings.Join(hist, "\n  "))
+				}
+
+				byU[u.U] = append(byU[u.U], line)
+			}
+
+			for i, tr := range trs {
+				u := batch[i].ReqID.String()
+				judge(batch[i], tr, byU[u], nil, "[concurrent] ")
+				delete(byU, u)
+			}
+
+			if len(byU) != 0 {
+				t.Fatalf("lines that belong to no request of the concurrent batch: %q\nhistory:\n  %s", byU, strings.Join(hist, "\n  "))
+			}
+		}
+
+		if n, desc := s.Orphans(); n != 0 {
+			t.Fatalf("%d downstream events carried no request ID or the ID of a request not in flight: %s\n%s\nhistory:\n  %s", n, desc, conf, strings.Join(hist, "\n  "))
 		}
 
 		if st.WantSample() && len(hist) > 3 {
